@@ -35,7 +35,7 @@
    virtual kernel of the harness (vk.c) applies, and the lemmas are stated through it. *)
 From Coq Require Import List ZArith Bool Lia.
 From Ivv Require Import Base.CSem Gen.LeafCoreFd Gen.LeafCoreTask Gen.LeafCoreMain Gen.LeafCoreEpoll Gen.LeafCorePoll
-  Gen.LeafCoreEvent Gen.LeafCoreLists.
+  Gen.LeafCoreEvent Gen.LeafCoreLists Gen.LeafCoreRaw.
 From Ivv Require Import Core.Kernel Core.CoreTypes Core.CoreFd Core.CoreModel.
 Import ListNotations.
 Local Open Scope Z_scope.
@@ -592,6 +592,57 @@ Theorem epoll_unregister_fd_is_the_code : forall s k,
 Proof.
   intros s k. destruct leaf_list_tests as (_ & _ & _ & _ & _ & H & _). rewrite H, negb_involutive. reflexivity.
 Qed.
+
+(* ------------------------------------------------------------------------------------------------------------ *)
+(* iv_event_raw_posix.c: eventfd-backed or pipe-backed is decided PER OBJECT (`event_wfd == event_rfd.fd`, fix D9); the
+   read size, the written size and the second close follow from it *)
+
+Lemma leaf_raw_is_eventfd : forall w r, raw_is_eventfd w r = Some (b2z (w =? r)).
+Proof. reflexivity. Qed.
+
+Lemma leaf_raw_sizes : forall s j,
+  raw_toread (rw_wfd s j) (rw_rfd s j) = Some (if raw_is_pipe s j then 1024 else 8) /\
+  raw_post_pipe (rw_wfd s j) (rw_rfd s j) = Some (raw_is_pipe s j) /\
+  raw_unreg_pipe (rw_wfd s j) (rw_rfd s j) = Some (raw_is_pipe s j) /\
+  raw_post_size_pipe tt = Some 1 /\ raw_post_size_efd tt = Some 8.
+Proof.
+  intros s j. unfold raw_toread, raw_post_pipe, raw_unreg_pipe, raw_is_eventfd, raw_is_pipe. cbn [ub_bind].
+  destruct (rw_wfd s j =? rw_rfd s j); repeat split; reflexivity.
+Qed.
+
+(* iv_event_raw_post of the model writes what the translated code writes: 1 byte to a pipe, the 8-byte value 1 to an eventfd *)
+Theorem raw_post_is_the_code : forall s j,
+  match raw_post_pipe (rw_wfd s j) (rw_rfd s j), raw_post_size_pipe tt, raw_post_size_efd tt with
+  | Some pipe, Some n1, Some n8 =>
+      Some (set_kern s (fst (if pipe then k_write (kern s) (rw_wfd s j) n1 0 else k_write (kern s) (rw_wfd s j) n8 1)))
+  | _, _, _ => None
+  end = Some (raw_post s j).
+Proof.
+  intros s j. destruct (leaf_raw_sizes s j) as (_ & -> & _ & -> & ->). unfold raw_post.
+  destruct (raw_is_pipe s j); [destruct (k_write (kern s) (rw_wfd s j) 1 0) | destruct (k_write (kern s) (rw_wfd s j) 8 1)];
+    reflexivity.
+Qed.
+
+(* iv_event_raw_unregister: the write end is closed only for a pipe-backed object *)
+Theorem raw_unregister_is_the_code : forall s j,
+  raw_unregister s j =
+  bind (fd_unregister s (RAW_KEY j)) (fun s =>
+    let s := do_close s (rw_rfd s j) in
+    match raw_unreg_pipe (rw_wfd s j) (rw_rfd s j) with
+    | Some pipe =>
+        let s := if pipe then do_close s (rw_wfd s j) else s in
+        R (set_rw s (upd (rw_reg s) j false) (rw_rfd s) (rw_wfd s))
+    | None => halt s TCrash
+    end).
+Proof.
+  intros s j. unfold raw_unregister.
+  destruct (fd_unregister s (RAW_KEY j)) as [s1|s1]; cbn [bind]; [|reflexivity].
+  cbv zeta.
+  destruct (leaf_raw_sizes (do_close s1 (rw_rfd s1 j)) j) as (_ & _ & H & _). rewrite H. reflexivity.
+Qed.
+
+Lemma leaf_raw_read_tests : forall ret, raw_nothing ret = Some (ret <=? 0) /\ raw_zero ret = Some (ret =? 0).
+Proof. intros; split; reflexivity. Qed.
 
 (* ------------------------------------------------------------------------------------------------------------ *)
 (* non-vacuity: the translated pieces evaluated on concrete values (a changed source changes these too) *)
